@@ -5,6 +5,7 @@ import (
 	"context"
 	"encoding/json"
 	"fmt"
+	"github.com/istio-ecosystem/authservice/internal/authz"
 	"net/http"
 	"net/http/httptest"
 	"net/url"
@@ -19,12 +20,12 @@ import (
 	"time"
 
 	"github.com/alicebob/miniredis/v2"
+	"google.golang.org/protobuf/types/known/durationpb"
 	corev1 "k8s.io/api/core/v1"
 	metav1 "k8s.io/apimachinery/pkg/apis/meta/v1"
 	"k8s.io/apimachinery/pkg/types"
 	ctrl "sigs.k8s.io/controller-runtime"
 	"sigs.k8s.io/controller-runtime/pkg/client/fake"
-	"google.golang.org/protobuf/types/known/durationpb"
 
 	configv1 "github.com/istio-ecosystem/authservice/config/gen/go/v1"
 	oidcv1 "github.com/istio-ecosystem/authservice/config/gen/go/v1/oidc"
@@ -415,6 +416,23 @@ func runC16Hammer(r *Run) {
 				if i%50 == 7 {
 					_ = fac.Get(oc).SetTokenResponse(context.Background(), shared, &oidc.TokenResponse{IDToken: mintToken(tokSpec{Mode: "good", Exp: time.Now().Unix() + 30, Aud: oc.ClientId, Sub: "u", Extra: "sh"})})
 				}
+			}
+		}(g)
+	}
+	// several providers discovered for the first time at the same moment: each goroutine builds handlers for its OWN
+	// configuration (nothing shared but the process-wide discovery cache) with configuration URIs nobody has resolved yet
+	for g := 0; g < 6; g++ {
+		wg.Add(1)
+		go func(g int) {
+			defer wg.Done()
+			for i := 0; time.Now().Before(deadline); i++ {
+				oc := mk(fmt.Sprintf("prov%d", g), func(o *oidcv1.OIDCConfig) {
+					o.ConfigurationUri, o.AuthorizationUri, o.TokenUri = fmt.Sprintf("%s/.well-known/p%d-%d", disc.URL, g, i%400), "", ""
+				})
+				guarded("first-discovery", func() {
+					_, _ = authz.NewOIDCHandler(oc, pool, staticJWKS{}, fac, oidc.Clock{}, oidc.NewRandomGenerator())
+				})
+				count("first-discovery")
 			}
 		}(g)
 	}
